@@ -391,7 +391,11 @@ def cooperative_locks(module):
 
 
 def _containers(module):
+    """(owner, key, container) for every mutable container bound at module or class level, and -
+    one level down - for the instance dictionary of every plain object bound there (descriptors,
+    singletons, registries: a lazily initialised attribute of such an object is state too)."""
     import collections
+    import types
     for owner in [module] + [v for v in vars(module).values()
                              if isinstance(v, type) and getattr(v, "__module__", None) == module.__name__]:
         for k, v in list(vars(owner).items()):
@@ -399,6 +403,11 @@ def _containers(module):
                 continue
             if isinstance(v, (dict, list, set, collections.deque)):
                 yield owner, k, v
+            elif (not isinstance(v, (type, types.ModuleType, types.FunctionType, types.BuiltinFunctionType,
+                                     classmethod, staticmethod, property, CoopLock, _LockNamespace))
+                  and type(v).__module__ == module.__name__
+                  and isinstance(getattr(v, "__dict__", None), dict)):
+                yield v, None, v.__dict__
 
 
 def snapshot_state(module):
@@ -411,7 +420,7 @@ def snapshot_state(module):
 
 def restore_state(module, snap):
     for owner, k, typ, content in snap:
-        cur = vars(owner).get(k)
+        cur = vars(owner).get(k) if k is not None else owner.__dict__
         if not isinstance(cur, typ):
             continue          # rebound to something else by the library itself (e.g. clear_cache)
         cur.clear()
